@@ -67,6 +67,8 @@ def _marker_maps(term):
 
 
 def run(db, chk) -> None:
+    from ..specs.discipline import check_shared_trace_untouched
+    check_shared_trace_untouched(db, chk, "C07.R-shared-trace")
     from ..specs.discipline import check_facade_stateless
     check_facade_stateless(db, chk, "C07.R-facade-stateless", ['get_comm_comp_overlap'])
     from ..specs.discipline import check_stateless
